@@ -1,4 +1,5 @@
 INIT Init
+CHECK_DEADLOCK FALSE
 NEXT Next
 CONSTANTS MaxRows = 2
           MaxLen = 2
@@ -6,5 +7,6 @@ CONSTANTS MaxRows = 2
           RK2 <- RK2Std
           CK1 <- CK1Min
           CK2 <- CK2Min
+          DefOnMany = {"-"}
 INVARIANT SpecSane
 INVARIANT RejectSane
